@@ -397,7 +397,7 @@ Definition iter_rules (g : grammar_obj) : list nat := seq 0 (rules_len g).
 Definition iter_pidxs (g : grammar_obj) : list nat := seq 0 (prods_len g).
 Definition iter_tidxs (g : grammar_obj) : list nat := seq 0 (tokens_len g).
 
-Definition prod (g : grammar_obj) (p : nat) : outcome (list gsym) := nth_checked (g_prods g) p.
+Definition prod_at (g : grammar_obj) (p : nat) : outcome (list gsym) := nth_checked (g_prods g) p.
 Definition prod_len (g : grammar_obj) (p : nat) : outcome nat :=
   do x <- nth_checked (g_prods g) p; Done (length x).
 Definition prod_to_rule (g : grammar_obj) (p : nat) : outcome nat := nth_checked (g_prods_rules g) p.
